@@ -49,6 +49,18 @@ class tar_syncer(http_syncer, base.ExternalSyncer):
         repo_name = os.path.basename(basedir)
         self.tempdir = os.path.join(repos_dir, f".{repo_name}.update")
         self.tempdir_old = os.path.join(repos_dir, f".{repo_name}.old")
+        # recover from an interrupted sync: if it died between moving the old
+        # repo away and moving the new one into place, put the old repo back,
+        # then drop stale staging dirs that would make this sync fail.
+        if not os.path.exists(basedir) and os.path.isdir(self.tempdir_old):
+            try:
+                os.rename(self.tempdir_old, basedir)
+            except OSError as e:
+                raise base.SyncError(
+                    f"failed restoring repo from {self.tempdir_old!r}: {e.strerror}"
+                ) from e
+        shutil.rmtree(self.tempdir, ignore_errors=True)
+        shutil.rmtree(self.tempdir_old, ignore_errors=True)
         # remove tempdirs on exit
         atexit.register(partial(shutil.rmtree, self.tempdir, ignore_errors=True))
         atexit.register(partial(shutil.rmtree, self.tempdir_old, ignore_errors=True))
@@ -88,11 +100,19 @@ class tar_syncer(http_syncer, base.ExternalSyncer):
 
         # TODO: verify gpg data if it exists
 
+        moved_old = False
         try:
             if os.path.exists(self.basedir):
                 # move old repo out of the way if it exists
                 os.rename(self.basedir, self.tempdir_old)
+                moved_old = True
             # move new, unpacked repo into place
             os.rename(self.tempdir, self.basedir)
         except OSError as e:
+            if moved_old:
+                # put the old repo back instead of losing it to the exit cleanup
+                try:
+                    os.rename(self.tempdir_old, self.basedir.rstrip(os.path.sep))
+                except OSError:
+                    pass
             raise base.SyncError(f"failed to update repo: {e.strerror}") from e
